@@ -128,3 +128,14 @@ func PUptr(x uintptr) int { return w(-1) }
 
 //go:noinline
 func PI32(x int32) int { return w(-1) }
+
+// H: a handle type - a struct with exactly ONE pointer field (reflect stores such a value directly in the interface word,
+// unlike multi-word structs); HL has the same layout under another type (the "stand-in" of an unnameable type)
+type H struct{ P *S }
+type HL struct{ P *S }
+
+//go:noinline
+func RHandle() H { w(1); return H{} }
+
+//go:noinline
+func PHandle(x H) int { return w(-1) }
